@@ -151,18 +151,27 @@ class CaseTimeout(Exception):
 
 @contextlib.contextmanager
 def time_limit(seconds: float):
-    """Per-case wall-clock alarm (worker processes run cases in their main thread)."""
+    """Per-case alarm (worker processes run cases in their main thread).
+
+    The budget is CPU time of the process (ITIMER_PROF), not wall-clock time: a verdict such as "does not run to
+    completion" must not depend on how loaded the machine is (the checks may run next to each other on the same cores).
+    A non-terminating computation burns CPU, so it is still stopped after `seconds` of its own work; a wall-clock alarm
+    30 times longer only backs this up against a case that blocks without computing."""
 
     def _handler(signum, frame):
-        raise CaseTimeout(f"case exceeded {seconds} s")
+        raise CaseTimeout(f"case exceeded {seconds} s of CPU time" if signum == signal.SIGPROF else f"case blocked for {30 * seconds} s")
 
-    old = signal.signal(signal.SIGALRM, _handler)
-    signal.setitimer(signal.ITIMER_REAL, seconds)
+    old_prof = signal.signal(signal.SIGPROF, _handler)
+    old_alrm = signal.signal(signal.SIGALRM, _handler)
+    signal.setitimer(signal.ITIMER_PROF, seconds)
+    signal.setitimer(signal.ITIMER_REAL, 30 * seconds)
     try:
         yield
     finally:
+        signal.setitimer(signal.ITIMER_PROF, 0)
         signal.setitimer(signal.ITIMER_REAL, 0)
-        signal.signal(signal.SIGALRM, old)
+        signal.signal(signal.SIGPROF, old_prof)
+        signal.signal(signal.SIGALRM, old_alrm)
 
 
 # --------------------------------------------------------------------------------------
